@@ -108,7 +108,12 @@ func (e *FieldExpression) Evaluate(ctx *Context, input system.Collection) (syste
 		}
 		// unwrap if a ContainedResource
 		if contained, ok := message.(*bcrpb.ContainedResource); ok {
-			message = containedresource.Unwrap(contained)
+			resource := containedresource.Unwrap(contained)
+			if resource == nil {
+				// a ContainedResource with no resource set has no fields to offer
+				continue
+			}
+			message = resource
 		}
 
 		// Get desired field
